@@ -557,9 +557,43 @@ func (c *CharSet) addSpace(ecma, re2, negate bool) {
 	}
 }
 
+// notECMAWordIgnoreCaseRanges is \W for the ASCII definition of \w under IgnoreCase: the
+// complement of the case closure of \w. The closure of \w holds U+017F (long s) and U+212A
+// (Kelvin sign), the partners of s and k, and - by the lower-casing table applied to ranges
+// in bracket classes - U+0130, which lower-cases to i; leaving them in the complement and
+// closing that under case instead would pull s, S, k, K, i and I into \W.
+func notECMAWordIgnoreCaseRanges() []SingleRange {
+	var out []SingleRange
+	for _, r := range NotECMAWordClass().ranges {
+		for _, cut := range []rune{0x0130, 0x017F, 0x212A} {
+			if r.First <= cut && cut <= r.Last {
+				if r.First < cut {
+					out = append(out, SingleRange{First: r.First, Last: cut - 1})
+				}
+				r.First = cut + 1
+			}
+		}
+		if r.First <= r.Last {
+			out = append(out, r)
+		}
+	}
+	return out
+}
+
+// NotECMAWordClassIgnoreCase is the class of \W under ECMAScript / RE2 with IgnoreCase.
+func NotECMAWordClassIgnoreCase() *CharSet {
+	return &CharSet{ranges: notECMAWordIgnoreCaseRanges()}
+}
+
 func (c *CharSet) addWord(ecma, negate bool) {
+	c.addWordIgnoreCase(ecma, negate, false)
+}
+
+func (c *CharSet) addWordIgnoreCase(ecma, negate, ignoreCase bool) {
 	if ecma {
-		if negate {
+		if negate && ignoreCase {
+			c.addRanges(notECMAWordIgnoreCaseRanges())
+		} else if negate {
 			c.addRanges(NotECMAWordClass().ranges)
 		} else {
 			c.addRanges(ECMAWordClass().ranges)
